@@ -2044,8 +2044,10 @@ class SQLGenerator:
                         ref_metric = ref_model_obj.get_metric(ref_name)
                         if ref_metric:
                             if ref_metric.agg:
-                                return self._build_measure_aggregation_sql(ref_model, ref_metric)
-                            return self._build_metric_sql(ref_metric, ref_model)
+                                return self._wrap_with_fill_nulls(
+                                    self._build_measure_aggregation_sql(ref_model, ref_metric), ref_metric
+                                )
+                            return self._wrap_with_fill_nulls(self._build_metric_sql(ref_metric, ref_model), ref_metric)
 
                 elif model_context:
                     try:
@@ -2057,8 +2059,12 @@ class SQLGenerator:
                         ref_metric = context_model.get_metric(ref)
                         if ref_metric:
                             if ref_metric.agg:
-                                return self._build_measure_aggregation_sql(model_context, ref_metric)
-                            return self._build_metric_sql(ref_metric, model_context)
+                                return self._wrap_with_fill_nulls(
+                                    self._build_measure_aggregation_sql(model_context, ref_metric), ref_metric
+                                )
+                            return self._wrap_with_fill_nulls(
+                                self._build_metric_sql(ref_metric, model_context), ref_metric
+                            )
 
                 # Fallback to graph-level metrics (including dotted metric names).
                 try:
@@ -2066,7 +2072,7 @@ class SQLGenerator:
                 except KeyError as exc:
                     raise ValueError(f"Metric {ref} not found") from exc
 
-                return self._build_metric_sql(ref_metric, model_context)
+                return self._wrap_with_fill_nulls(self._build_metric_sql(ref_metric, model_context), ref_metric)
 
             num_expr = resolve_ratio_ref(metric.numerator)
             denom_expr = resolve_ratio_ref(metric.denominator)
@@ -2157,6 +2163,8 @@ class SQLGenerator:
                             metric_sql = self._build_measure_aggregation_sql(model_name, measure)
                         else:
                             metric_sql = self._build_metric_sql(measure, model_name)
+                        # A component keeps its own fill_nulls_with when inlined
+                        metric_sql = self._wrap_with_fill_nulls(metric_sql, measure)
                     else:
                         raise ValueError(f"Measure {metric_name} not found")
                 else:
@@ -2164,7 +2172,9 @@ class SQLGenerator:
                     try:
                         ref_metric = self.graph.get_metric(metric_name)
                         # Recursively build metric SQL
-                        metric_sql = self._build_metric_sql(ref_metric, model_context)
+                        metric_sql = self._wrap_with_fill_nulls(
+                            self._build_metric_sql(ref_metric, model_context), ref_metric
+                        )
                     except KeyError:
                         raise ValueError(f"Metric {metric_name} not found")
 
